@@ -118,7 +118,8 @@ func runScan(in *qinput, prev *ast.AST) (scanResult, *ast.AST) {
 			run := toRun(r)
 			res.Runs = append(res.Runs, run)
 			// the long-lived scanner: this tree, then the previous input's tree, then this tree again
-			u1 := toRun(usedScanners[i].Scan(tree))
+			held := usedScanners[i].Scan(tree) // a result the caller keeps while the scanner goes on scanning
+			u1 := toRun(held)
 			if prev != nil {
 				usedScanners[i].Scan(prev)
 			}
@@ -128,8 +129,16 @@ func runScan(in *qinput, prev *ast.AST) (scanResult, *ast.AST) {
 			}
 			sqlRun := toRun(fresh.ScanSQL(in.SQL))
 			res.SQLRuns = append(res.SQLRuns, sqlRun)
-			if !sameRun(sqlRun, toRun(usedScanners[i].ScanSQL(in.SQL))) {
+			heldSQL := usedScanners[i].ScanSQL(in.SQL)
+			if !sameRun(sqlRun, toRun(heldSQL)) {
 				res.UsedSame = false
+			}
+			// results handed out earlier belong to the caller: later scans (of other inputs) must not change them
+			usedScanners[i].ScanSQL("SELECT a FROM t WHERE id = 1 OR 1 = 1 -- x")
+			usedScanners[i].Scan(tree)
+			if !sameRun(u1, toRun(held)) || !sameRun(sqlRun, toRun(heldSQL)) {
+				res.UsedSame = false
+				res.HelperBad = append(res.HelperBad, "held-result-changed-by-a-later-scan")
 			}
 		}
 	})
